@@ -4,16 +4,27 @@ open Rpylib Rpylib.Stats
 
 def fn (l : List Rat) : Nat → Rat := fun i => l.getD i 0
 
+/-- constant-time accessors (arrays), so that a request with a few hundred paths is answered in well under a second -/
+def fnA (l : List Rat) : Nat → Rat :=
+  let a := l.toArray
+  fun i => a.getD i 0
+
+def fnnA (l : List (List Rat)) : Array (Array Rat) := (l.map List.toArray).toArray
+
+def atA (a : Array (Array Rat)) (r i : Nat) : Rat := (a.getD r #[]).getD i 0
 /-- requests:
   stats <ys>                  -> `<mean> <varU> <stderrSq>`
   cv1 <price> <xs> <ys>       -> `<bStar> <adjusted list> <mean adjusted> <stderrSq adjusted>`
   rows <df> <notional> <payoffs> -> stored rows (`-` for a placeholder)
+  cvvec <k> <d> <prices: k rows of d> <X: k*d rows of n, row j*d+c = control j, component c> <Y: d rows of n>
+        -> `<adjusted: d rows of n> <coefficients: d rows of k> <means: d> <stderrSq: d>`   (k ≤ 2: the kernel as coded)
 -/
+
 def step (t : List String) : String :=
   match t with
   | ["stats", ys] =>
     match parseRatList? ys with
-    | some ys => let n := ys.length; showRat (mean n (fn ys)) ++ " " ++ showRat (varU n (fn ys)) ++ " " ++ showRat (stderrSq n (fn ys))
+    | some ys => let n := ys.length; let f := fnA ys; showRat (mean n f) ++ " " ++ showRat (varU n f) ++ " " ++ showRat (stderrSq n f)
     | none => "bad-op"
   | ["cv1", c, xs, ys] =>
     match parseRat? c, parseRatList? xs, parseRatList? ys with
@@ -23,6 +34,24 @@ def step (t : List String) : String :=
       let a := adjust b c (fn xs) (fn ys)
       showRat b ++ " " ++ showRatList ((List.range n).map a) ++ " " ++ showRat (mean n a) ++ " " ++ showRat (stderrSq n a)
     | _, _, _ => "bad-op"
+  | ["cvvec", k, d, prs, xs, ys] =>
+    match parseNat? k, parseNat? d, parseListListWith? parseRat? prs, parseListListWith? parseRat? xs, parseListListWith? parseRat? ys with
+    | some k, some d, some prs, some xs, some ys =>
+      if k > 2 || ys.length != d || xs.length != k * d || prs.length != k then "bad-op" else
+      let n := (ys.getD 0 []).length
+      let xa := fnnA xs
+      let ya := fnnA ys
+      let pa := fnnA prs
+      let x : Nat → Nat → Nat → Rat := fun j c i => atA xa (j * d + c) i
+      let y : Nat → Nat → Rat := atA ya
+      let pr : Nat → Nat → Rat := atA pa
+      let cs := List.range d
+      let adj := cs.map (adjustVecRow k (kernelOf k) pr x y n)
+      let adjA := fnnA adj
+      showListList showRat adj ++ " " ++ showListList showRat (cs.map (coefVec k (kernelOf k) x y n))
+        ++ " " ++ showRatList (cs.map (fun c => mean n (atA adjA c)))
+        ++ " " ++ showRatList (cs.map (fun c => stderrSq n (atA adjA c)))
+    | _, _, _, _, _ => "bad-op"
   | ["rows", df, no, ps] =>
     match parseRat? df, parseRat? no, parseRatList? ps with
     | some df, some no, some ps => showList (showOpt showRat) (stdRows ps.length df no (fn ps))
